@@ -39,3 +39,14 @@ Fixpoint ok_cues (authored observed : list (list str)) : bool :=
 
 (* a caption is in the domain of C03 when it shows at least one visible character *)
 Definition visible_lines (ls : list str) : bool := match norm_lines ls with [] => false | _ => true end.
+
+(* ---- C03: "up to leading/trailing white space per line" - trim only, the interior of a line is compared exactly;
+        lines that are empty after trimming (empty, blank, a lone no-break space) are dropped on both sides ---- *)
+Definition trim_lines (ls : list str) : list str := filter nonempty (map strip ls).
+Definition ok_lines_strict (authored observed : list str) : bool := strs_eqb (trim_lines authored) (trim_lines observed).
+Fixpoint ok_cues_strict (authored observed : list (list str)) : bool :=
+  match authored, observed with
+  | [], [] => true
+  | a :: at', o :: ot => ok_lines_strict a o && ok_cues_strict at' ot
+  | _, _ => false
+  end.
